@@ -235,9 +235,11 @@ def verdict (hasRules : Bool) (rules : List Rule) (req : Req) (backend : Hdr) (k
 structure Conf where
   version : Str
   products : List (Str × List Rule)     -- product -> rules (product names distinct)
+  fileOk : Bool := true                 -- the rule FILE decodes (JSON of the right shape, Config present, conditions build)
 
-/-- CorsRuleFileLoad rejects a configuration as a whole when any rule of any product is invalid -/
-def confOk (c : Conf) : Bool := c.products.all fun p => p.2.all ruleOk
+/-- CorsRuleFileLoad rejects a file as a whole when it does not decode, has no Version / Config (CorsRuleCheck),
+    or any rule of any product is invalid -/
+def confOk (c : Conf) : Bool := c.fileOk && c.version != [] && c.products.all fun p => p.2.all ruleOk
 
 /-- `loadRuleData`: a rejected configuration leaves the table alone, an accepted one REPLACES it
     (`CorsRuleTable.Update`: `t.productRule = ruleConf.Config`) -/
